@@ -371,6 +371,11 @@ func runCase(rt *rapid.T, maxN int) {
 	// the duty's start: attester duties start a third into the slot
 	time.Sleep(time.Until(genesis.Add(time.Duration(dutySlot)*12*time.Second + 4*time.Second)))
 
+	// per node: does its validator client submit all validators in one call or one by one
+	batchVC := make([]bool, n)
+	for i := range batchVC {
+		batchVC[i] = rapid.Bool().Draw(rt, "vcSubmitsBatch")
+	}
 	startDuty := func(i int, d core.Duty) {
 		nd := nodes[i]
 		if nd.crashed || nd.started[d] {
@@ -381,6 +386,32 @@ func runCase(rt *rapid.T, maxN int) {
 		case core.DutyAttester:
 			for _, sub := range nd.sched.subs {
 				goFn(func() { _ = sub(nd.ctx, d, attDefs) })
+			}
+			if batchVC[i] && len(vals) > 1 {
+				// this node's validator client signs for all its validators and submits them in one call
+				goFn(func() {
+					var list []*eth2spec.VersionedAttestation
+					for _, v := range vals {
+						resp, err := nd.vapi.AttestationData(nd.ctx, &eth2api.AttestationDataOpts{Slot: eth2p0.Slot(d.Slot), CommitteeIndex: commIdx})
+						if err != nil {
+							return
+						}
+						cb := bitfield.NewBitvector64()
+						cb.SetBitAt(commIdx, true)
+						ab := bitfield.NewBitlist(8)
+						ab.SetBitAt(uint64(v.index%8), true)
+						idx := v.index
+						att := &eth2spec.VersionedAttestation{Version: eth2spec.DataVersionElectra, ValidatorIndex: &idx, Electra: &electra.Attestation{AggregationBits: ab, Data: resp.Data, CommitteeBits: cb}}
+						cv, err := core.NewVersionedAttestation(att)
+						must(err)
+						s, err := specsign.Sign(bn, v.shares[i+1], cv)
+						must(err)
+						copy(att.Electra.Signature[:], s.Signature())
+						list = append(list, att)
+					}
+					_ = nd.vapi.SubmitAttestations(nd.ctx, &eth2api.SubmitAttestationsOpts{Attestations: list})
+				})
+				break
 			}
 			// the validator client of this node: one goroutine per validator
 			for _, v := range vals {
@@ -404,6 +435,21 @@ func runCase(rt *rapid.T, maxN int) {
 				})
 			}
 		case core.DutySyncMessage:
+			if batchVC[i] && len(vals) > 1 {
+				goFn(func() {
+					var list []*altair.SyncCommitteeMessage
+					for _, v := range vals {
+						msg := &altair.SyncCommitteeMessage{Slot: eth2p0.Slot(d.Slot), ValidatorIndex: v.index}
+						msg.BeaconBlockRoot[0] = nodeVariant[i]
+						s, err := specsign.Sign(bn, v.shares[i+1], core.NewSignedSyncMessage(msg))
+						must(err)
+						copy(msg.Signature[:], s.Signature())
+						list = append(list, msg)
+					}
+					_ = nd.vapi.SubmitSyncCommitteeMessages(nd.ctx, list)
+				})
+				break
+			}
 			for _, v := range vals {
 				goFn(func() {
 					msg := &altair.SyncCommitteeMessage{Slot: eth2p0.Slot(d.Slot), ValidatorIndex: v.index}
